@@ -222,7 +222,7 @@ def run_cases(cases, wdir, tag, mat, chunks=None):
 
 def weight(case):
     return (len(case["mappings"]), len(case["req"]["segs"]), 1 if case["cur"]["has"] else 0, 0 if case["req"]["base"] == "" else 1,
-            sum(len(case["trees"][r]) for r in ROOTS))
+            0 if case["style"] == "slash" else 1, sum(len(case["trees"][r]) for r in ROOTS))
 
 
 def run(rep, tier, seed, replay):
@@ -265,6 +265,13 @@ def run(rep, tier, seed, replay):
             rep.add_tlc(r)
         rep.traces = len(cases)
         rep.extra["ops_judged"] = totals["ops"]
+        stats = {}
+        for r in results:
+            for k, v in r.verdicts[-1].get("stats", {}).items():
+                stats[k] = stats.get(k, 0) + v
+        rep.extra["cases_by_class"] = stats   # antecedents of the formulas met on real executions (non-vacuity)
+        if not replay and not (stats.get("refFile") and stats.get("traversal") and stats.get("severalRootsHit") and stats.get("nestedPrefixes")):
+            raise vlib.MachineryError("vacuous run: some formula's antecedent was never met: %s" % stats)
         cmap = {c["id"]: c for c in cases}
         for c in cases[:2] + cases[len(cases) // 2:len(cases) // 2 + 2] + cases[-2:]:
             rep.samples.append({"case": describe(c, dcases[c["id"]]), "observed": [[o["op"], o["k"], o["root"], "/".join(o["rel"])] for o in lines[c["id"]]["obs"]]})
